@@ -48,6 +48,9 @@ def cases(tier, seed):
         out.append({"kind": "fixed", "cfg": c})
     for i in range(12 if tier == "quick" else 120):
         out.append({"kind": "wrapper"})
+    # the climate wrapper is a model too: (lon, lat) signature in, requested signature out, for every step count
+    for i in range(6 if tier == "quick" else 60):
+        out.append({"kind": "climate"})
     return out
 
 
@@ -65,7 +68,58 @@ def setup(ctx):
 def run(case, ctx):
     if case["kind"] == "wrapper":
         return run_wrapper(case, ctx)
+    if case["kind"] == "climate":
+        return run_climate(case, ctx)
     return run_model(case, ctx)
+
+
+def run_climate(case, ctx):
+    import jax.numpy as jnp
+    import ginjax.geometric as geom
+    import ginjax.models as models
+
+    rng = rng_for(ctx["seed"], ID, case["i"])
+    n_lon, n_lat = int(rng.integers(2, 7)), int(rng.integers(2, 7))
+    past, future = int(rng.integers(1, 4)), int(rng.integers(1, 4))
+    pool = [(0, 0), (0, 1), (1, 0)]
+    dyn = [(pool[i], int(rng.integers(1, 3))) for i in rng.choice(3, size=int(rng.integers(1, 4)), replace=False)]
+    const_sig = [{}, {(0, 0): 1}, {(0, 0): 2, (0, 1): 1}, {(0, 1): 1}][int(rng.integers(4))]
+    out_sig = [(pool[i], int(rng.integers(1, 3)) * future) for i in rng.choice(3, size=int(rng.integers(1, 4)), replace=False)]
+    torus = (True, False)
+    key = {"kind": "climate", "lon": n_lon, "lat": n_lat, "past": past, "future": future, "dyn": dyn, "const": {str(t): c for t, c in const_sig.items()}, "out": out_sig}
+    viols = []
+    try:
+        blocks = {}
+        for t in [t for t, _ in dyn] + [t for t in const_sig if t not in dict(dyn)]:
+            c = dict(dyn).get(t, 0) * past + const_sig.get(t, 0)
+            blocks[t] = jnp.asarray(rng.normal(size=(c, n_lon, n_lat) + (2,) * t[0]).astype(np.float32))
+        x = geom.MultiImage(blocks, 2, torus)
+        out_keys = mlgen.signature(out_sig)
+        sig1d = models.Climate1D.get_1d_signature(out_keys, n_lat)
+
+        class Inner1D(models.MultiImageModule):
+            def __call__(self, z, aux_data=None):
+                n = next(iter(z.values())).shape[-1]
+                base = sum(jnp.mean(v) for v in z.values())
+                return geom.MultiImage({t: base + jnp.arange(c * n, dtype=jnp.float32).reshape((c, n)) for t, c in sig1d}, 1, (True,)), aux_data
+
+        model = models.Climate1D(Inner1D(), out_keys, past, future, (n_lon, n_lat), dict(const_sig), torus)
+        y = model(x)[0]
+        want_keys = [t for t, _ in out_sig]
+        if list(y.keys()) != want_keys:
+            viols.append(viol("model-output-types" if set(y.keys()) != set(want_keys) else "output-type-order", f"Climate1D returned types {list(y.keys())}, requested {want_keys}; {key}"))
+        else:
+            for t, c in out_sig:
+                if tuple(y[t].shape) != (c, n_lon, n_lat) + (2,) * t[0]:
+                    viols.append(viol("model-output-shape", f"Climate1D block {t} has shape {tuple(y[t].shape)}, requested {(c, n_lon, n_lat) + (2,) * t[0]}; {key}"))
+            if y.D != 2 or tuple(y.is_torus) != torus:
+                viols.append(viol("model-output-metadata", f"Climate1D output D/is_torus {y.D}/{y.is_torus}; {key}"))
+    except Exception as e:
+        import traceback
+
+        viols.append(viol(f"model-exception-{type(e).__name__}", f"Climate1D raised {type(e).__name__}: {str(e)[:300]}; {key}; {traceback.format_exc()[-400:]}"))
+    viols += [v for v in _struct.take()][:2]
+    return result(key, viols, len(out_sig) >= 2 or future >= 2, evals=1, obs={"climate_calls": 1}, hist={"cls": "Climate1D", "D": 2, "equivariant": False}, sample={"cfg": key})
 
 
 def run_model(case, ctx):
